@@ -467,7 +467,7 @@ func (c *Ctx) ruleB1() {
 			nSubs++
 		}
 	}
-	c.floor("B1", "bus subscriptions", nSubs, 6)
+	c.floor("B1", "bus subscriptions", nSubs, 4)
 	replPrivate, replPos := c.replicatorBusPrivate()
 	nScoped := 0
 	for _, s := range subs {
